@@ -18,9 +18,10 @@ def _subs_with_point(expr: Any, coordinate_system: CoordinateSystem, point_: Poi
     base_scalars = coordinate_system.coord_system.base_scalars()
     # convert Any to Expr
     expression = sympify(expr, strict=True)
-    for i, scalar in enumerate(base_scalars):
-        expression = expression.subs(scalar, point_.coordinate(i))
-    return expression
+    # coordinates of the point can be expressed via base scalars themselves, eg trajectory [y, x],
+    # so all base scalars should be replaced at once
+    substitutions = {scalar: point_.coordinate(i) for i, scalar in enumerate(base_scalars)}
+    return expression.subs(substitutions, simultaneous=True)
 
 
 # Contains mapping of point to a scalar value in _point_function, eg P(Point).
